@@ -313,8 +313,35 @@ def equal_index_keys(g):
     return t, ops
 
 
+def boundary_walk(g):
+    """a paginated read in which the item every page ended on is deleted before the next page is asked for: the first page
+    boundary of a backward read is the greatest key of the partition (here also of the whole table), of a forward read the
+    smallest; what remains is still returned completely"""
+    r = g.r
+    ops = [dict(op="add_table", client="c", table="tbl", hash="h", range="r")]
+    base = dict(client="c", table="tbl")
+    part = r.choice(["p", "z", "z", "z", "a"])          # "z": the partition with the greatest key strings of the table
+    for k in r.sample(["1", "2", "3", "4", "5"], r.randrange(3, 6)):
+        ops.append(dict(op="put", item={"h": S(part), "r": S(k), "g": S("x")}, **base))
+    for h in r.sample(["a", "m", "b"], r.randrange(0, 3)):
+        ops.append(dict(op="put", item={"h": S(h), "r": S("1")}, **base))
+    fwd = r.random() < 0.35
+    rd = dict(op="query", keycond="h = :h", names={}, values={":h": S(part)}, forward=fwd, limit=r.choice([1, 1, 2]), **base)
+    if r.random() < 0.25: rd = dict(op="scan", limit=r.choice([1, 2]), **base)
+    ops.append(rd)
+    for _ in range(6):
+        if r.random() < 0.75: ops.append(dict(op="delete", key={"$lek": len(ops) - 1, "attrs": ["h", "r"]}, **base))
+        nxt = json.loads(json.dumps(rd)); nxt["esk"] = {"$lek": len(ops) - 1 if ops[-1]["op"] != "delete" else len(ops) - 2}
+        ops.append(nxt)
+    full = json.loads(json.dumps(rd)); full.pop("limit")
+    ops.append(full)
+    return ops
+
+
 def page_script(g):
     r = g.r
+    if r.random() < 0.2:
+        return boundary_walk(g)
     tie = r.random() < 0.3
     if tie:
         t, ops = equal_index_keys(g)
@@ -332,8 +359,15 @@ def page_script(g):
         full = json.loads(json.dumps(op)); full.pop("limit")
         ops.append(full)
         ops.append(op)
+        kattrs = [t["schema"]["hash"][0]] + ([t["schema"]["range"][0]] if t["schema"]["range"] else [])
         for _ in range(12):
-            if r.random() < 0.25:
+            q = r.random()
+            if q < 0.15:
+                # the very item the page ended on is deleted before the next page is asked for (also the first or the
+                # greatest key of the table, also read backward)
+                ops.append(dict(op="delete", key={"$lek": len(ops) - 1, "attrs": kattrs}, **base))
+                nxt = json.loads(json.dumps(op)); nxt["esk"] = {"$lek": len(ops) - 2}
+            elif q < 0.3:
                 ops.append(dict(op="delete", key=g.key_of(t["schema"]), **base))
                 nxt = json.loads(json.dumps(op)); nxt["esk"] = {"$lek": len(ops) - 2}
             else:
@@ -423,13 +457,16 @@ def failing_script(g):
                     attrs=[dict(name="g", type="S")], gsi=[dict(name="gix", hash=dict(name="g"), throughput=True)]),
                dict(op="add_updater", client="c", table="tbl", expr="SET g = :n", id=1, set={"g": N("7"), "@poke": S("1")}),
                dict(op="add_updater", client="c", table="tbl", expr="SET v = :v", id=2, set={"v": S("ok"), "@poke": S("1")}),
-               dict(op="add_updater", client="c", table="tbl", expr="SET g = :s", id=3, set={"g": S("z"), "w": {"M": {}}})]
+               dict(op="add_updater", client="c", table="tbl", expr="SET g = :s", id=3, set={"g": S("z"), "w": {"M": {}}}),
+               dict(op="add_updater", client="c", table="tbl", expr="SET g = :m", id=4, set={"g": N("8"), "@pokes": S("1")}),
+               dict(op="add_updater", client="c", table="tbl", expr="SET y = :y", id=5, set={"y": S("ok"), "@pokes": S("1")})]
         for h in ["a", "b", "c"]:
             ops.append(dict(op="put", item={"h": S(h), "g": S("x"), "m": {"M": r.choice([{}, {"x": S("1")}, {"y": {"M": {}}}])},
-                                             "e": {"M": {}}, "l": {"L": [{"M": {}}]}}, **base))
+                                             "e": {"M": {}}, "l": {"L": [{"M": {}}]}, "x": r.choice([S("v"), N("5"), S("")])}, **base))
         for _ in range(r.randrange(3, 8)):
             h = r.choice(["a", "b", "c", "d"])
-            e, vs = r.choice([("SET g = :n", {":n": N("7")}), ("SET v = :v", {":v": S("ok")}), ("SET g = :s", {":s": S("z")})])
+            e, vs = r.choice([("SET g = :n", {":n": N("7")}), ("SET v = :v", {":v": S("ok")}), ("SET g = :s", {":s": S("z")}),
+                              ("SET g = :m", {":m": N("8")}), ("SET y = :y", {":y": S("ok")})])
             ops.append(dict(op="update", key={"h": S(h)}, expr=e, names={}, values=vs, **base))
             ops.append(dict(op="get", key={"h": S(h)}, **base))
         ops.append(dict(op="scan", **base))
@@ -786,7 +823,9 @@ def native_script(g):
     base_texts = r.sample(NATIVE_EXPRS[:19], 2) + [r.choice(NATIVE_EXPRS[19:24])] + [r.choice(NATIVE_EXPRS[24:])]
     texts = list(base_texts)
     for e in base_texts[:2]:
-        texts.append(r.choice([e.replace(" ", "  "), " " + e + " ", e.replace(" ", "\t"), e.swapcase() if e.isascii() else e, e.replace(" ", "")]))
+        texts.append(r.choice([e.replace(" ", "  "), " " + e + " ", e.replace(" ", "\t"), e.swapcase() if e.isascii() else e, e.replace(" ", ""),
+                               # a character at an end that only LOOKS like white space (no-break space, form feed, vertical tab, NEL)
+                               e + "\u00c2\u00a0", "\x0c" + e, e + "\x0b", "\u00c2\u0085" + e]))
     when_activate = r.choice(["before", "after", "before", "never"])
     if when_activate == "before": ops.append(dict(op="activate_native", client="c"))
     for name in tabs: ops.append(dict(op="add_table", client="c", table=name, hash="h", range=""))
